@@ -104,6 +104,26 @@ def run_case(c, d):
     st2 = line_profiler.load_stats(dump2)
     b2 = io.StringIO()
     line_profiler.show_text(st2.timings, st2.unit, stream=b2)
+    # ---- a dump requested while another dump of the same profiler is still being written (kernprof -i's timer thread against the
+    # final dump): the second file must hold what the profiler reports at that moment
+    import threading
+    fifo = os.path.join(d, 'slow_target.fifo')
+    os.mkfifo(fifo)
+    th = threading.Thread(target=prof.dump_stats, args=(fifo,))
+    th.start()                                # blocks opening the pipe until somebody reads it
+    import time
+    time.sleep(0.05)
+    dump3 = os.path.join(d, 'during.lprof')
+    prof.dump_stats(dump3)
+    at_that_moment = prof.get_stats()
+    with open(fifo, 'rb') as fh:              # let the first dump finish
+        fh.read()
+    th.join(5)
+    if os.path.exists(dump3):
+        st4 = line_profiler.load_stats(dump3)
+        out['overlapping_dump'] = {'written': True, 'equal': canon(st4.timings) == canon(at_that_moment.timings) and st4.unit == at_that_moment.unit}
+    else:
+        out['overlapping_dump'] = {'written': False, 'equal': False}
     out['live'] = {'unit': live.unit, 'timings': canon(live.timings)}
     out['live_reloaded'] = {'unit': st2.unit, 'timings': canon(st2.timings)}
     out['live_print_stats'] = b1.getvalue()
